@@ -125,8 +125,14 @@ def run(tier="quick", only_key=None):
         f0 = catalog.stepper_forms(it, G, 2, parity, injection_scale=0)
         f1 = catalog.stepper_forms(it, G, 2, parity, injection_scale=GAM, injection_mode=KINJ)
         key = f"{G.qual}#dispatch#Nparity={parity}"
+        Dv2 = C.deriv(2, L)
+        fshape2 = (N, H_of(parity))
+        direct2 = it.call(V2K, [2, N], dict(derivative_operator=Tens((2,) + fshape2, Dv2), dealiasing_fraction=S("dealiasing_fraction"), injection_mode=KINJ, injection_scale=GAM, convection_scale=S("vorticity_convection_scale")))
         if f0["nf"].cls is V2 and f1["nf"].cls is V2K and f1["nf"].f["injection"].data[0] != Poly() and any(a == ("s", "gam") for a in f1["nf"].f["injection"].data[0].all_atoms()):
-            ck.ok("forwarding", key)
+            if f1["nf"].f["injection"].data == direct2.f["injection"].data:
+                ck.ok("forwarding", key)
+            else:
+                ck.fail("forwarding", key, loc(G.find("_build_nonlinear_fun")), "the generic stepper does not forward injection_mode / injection_scale unchanged: its injection spectrum differs from VorticityConvection2dKolmogorov(injection_mode, injection_scale)")
         else:
             ck.fail("forwarding", key, loc(G.find("_build_nonlinear_fun")), f"dispatch on injection_scale wrong: scale 0 -> {f0['nf'].cls.name}, scale gamma -> {f1['nf'].cls.name}")
         # ---- ForcedStepper
